@@ -153,6 +153,12 @@ def materialise_assembly(case):
     for attempt in range(50):
         # some overhang choices cannot be embedded without creating a further site; draw again
         ov = gen.gen_overhangs(rng, k, nm + 1, forbid=(site, rc(site)), palindromes=opts.get("palindromes", 0.5))
+        if nm >= 2 and rng.random() < 0.15:
+            # the vector's upstream overhang is the reverse complement of an inner junction: module start overhangs are still
+            # pairwise distinct and non-complementary, so the chain is complete and unambiguous for the library's rules
+            j = rng.randint(1, nm - 1)
+            if rc(ov[j]) != ov[j] and rc(ov[j]) not in ov[:nm]:
+                ov[nm] = rc(ov[j])
         try:
             v = gen.build_vector(rng, geom, o_start=ov[nm], o_end=ov[0], plen=rng.randint(0, opts["pmax"]), blen=rng.randint(2, opts["bmax"]))
             mods = [gen.build_module(rng, geom, ov[i], ov[i + 1], rng.randint(2, opts["tmax"]), rng.randint(0, opts["bmax"])) for i in range(nm)]
